@@ -50,7 +50,11 @@ let gen_history (idx : int) (prof : cprofile) (oc : out_channel) =
       else
         let (st', _) = cl_step cfg st (CAdv (n_of_int (m - int_of_n st.cl_now))) in
         if st'.cl_exited then false else ambiguous_advance st' target in
+  (* message IDs of exchanges that existed at some point (the gateway may answer late: stale acks) *)
+  let recent = ref [] in
   let emit (text : string) : bool =
+    List.iter (fun (k, _) -> let k = int_of_n k in if not (List.mem k !recent) then recent := k :: (match !recent with a :: b :: c :: d :: e :: _ -> [a; b; c; d; e] | l -> l))
+      (nmap_to_list !s.cl_by_id);
     let ev = Cl_io.parse_event text in
     let amb = (match ev with CAdv d -> ambiguous_advance !s (int_of_n !s.cl_now + int_of_n d) | _ -> false) in
     if amb then false else begin
@@ -61,7 +65,9 @@ let gen_history (idx : int) (prof : cprofile) (oc : out_channel) =
   let call (a : string) = let id = !next_call in incr next_call; emit_or_skip (Printf.sprintf "CALL %d %s" id a) in
   let gw (p : packet) = emit_or_skip ("GW " ^ hex_of_bytes (pack p)) in
   let objs () = nmap_to_list !s.cl_objs in
-  let some_mid () = match nmap_to_list !s.cl_by_id with [] -> 1 + rnd 5 | l -> if rnd 6 = 0 then 1 + rnd 9 else int_of_n (fst (pick l)) in
+  let some_mid () =
+    if !recent <> [] && rnd 3 = 0 then pick !recent else
+    match nmap_to_list !s.cl_by_id with [] -> (match !recent with [] -> 1 + rnd 5 | l -> pick l) | l -> if rnd 6 = 0 then 1 + rnd 9 else int_of_n (fst (pick l)) in
   let reg_ids () = List.map (fun (_, i) -> int_of_n i) !s.cl_registered in
   let some_tid () = match reg_ids () with [] -> 1 + rnd 4 | l -> if rnd 6 = 0 then 1 + rnd 30 else pick l in
   let next_tid = ref (1 + rnd 3) in
